@@ -6,6 +6,8 @@ from .common import EVIDENCE
 
 
 def write(prop, tier, seed, level, coverage, assumptions, wall, violations, extra=None):
+    if os.environ.get("VERIF_SCRATCH") == "1":
+        return None
     os.makedirs(EVIDENCE, exist_ok=True)
     doc = {
         "property_id": prop, "tier": tier, "seed": int(seed), "level": level,
